@@ -18,7 +18,11 @@ static void verif_on_alarm(int)
 static inline void verif_case_watchdog(size_t nops, unsigned base = 3, size_t opsPerSecond = 500)
 {
     std::signal(SIGALRM, verif_on_alarm);
-    alarm(base + (unsigned)(nops / opsPerSecond));
+    // VERIF_WATCHDOG_SCALE multiplies the budget (used when a reported hang is re-run alone to
+    // tell a real hang from a slow, loaded machine)
+    unsigned scale = 1;
+    if (const char* e = std::getenv("VERIF_WATCHDOG_SCALE")) { const int v = std::atoi(e); if (v > 1 && v <= 100) scale = (unsigned)v; }
+    alarm((base + (unsigned)(nops / opsPerSecond)) * scale);
 }
 
 // between cases a generous budget stays armed, so that a hang in teardown code that runs
